@@ -818,6 +818,7 @@ func runC13(r *Run) {
 		c13Merge(r, b, timeout)
 	}
 	c13DefaultCheck(r)
+	c13CloseThenLog(r)
 	r.Dist["configurations"] = len(chosen)
 	r.Dist["call_sequences"] = len(seqs)
 	r.Exhaust = r.Thorough()
@@ -831,8 +832,9 @@ func replayC13(r *Run, file string) {
 	var g c13Group
 	loadReplay(file, &g)
 	r.Coq(c13Header, "case", "ok")
-	if len(g.Ops) == 0 && len(g.Calls) == 0 { // a finding of the default-destination process (c13_default.go): run it again
+	if len(g.Ops) == 0 && len(g.Calls) == 0 { // a finding of the default-destination process or of close-then-log (c13_default.go): run them again
 		c13DefaultCheck(r)
+		c13CloseThenLog(r)
 		finishReplay(r)
 		return
 	}
